@@ -1,7 +1,261 @@
-from ..model import AnalysisError
+"""C19 - simulations are reproducible and time is monotone (partial: absence of the constructs that break it).
+
+Forbidden-construct / taint rules over the whole package, each with a canary that must be reported on every run:
+  R1 no iteration over (or arbitrary element taken from) set-typed values;
+  R2 results of id() / hash() / default object repr never reach an ordering sink (sort key, <, min/max);
+  R3 entropy only from the module-level `random` functions (seedable with random.seed);
+  R4 no wall clock / real-time environment;
+  R5 no write to the kernel clock or event queue, no heap operations on kernel state.
+"""
+from __future__ import annotations
+
+import ast
+from typing import Dict, List
+
+from ..model import AnalysisError, Project
+from ..report import Result
+from .common import src
+
 PROP = 'C19'
 LEVEL = 'other'
 
+ORDER_FUNCS = {'sorted', 'min', 'max'}
+ENTROPY_BAD = {'SystemRandom', 'Random', 'urandom', 'getrandbits'}
+WALL = {('time', 'time'), ('time', 'perf_counter'), ('time', 'monotonic'), ('time', 'time_ns'), ('time', 'sleep'), ('time', 'process_time'),
+        ('datetime', 'now'), ('datetime', 'utcnow'), ('datetime', 'today'), ('date', 'today')}
+KERNEL_ATTRS = {'_now', '_queue', '_eid', '_active_proc'}
 
-def run(p, tier):
-    raise AnalysisError('rule module for C19 not implemented yet (fail closed)')
+CANARY = {
+    'R1': "def f(s):\n    ready = set()\n    ready.add(s)\n    for x in ready:\n        print(x)\n    y = {1, 2}.pop()\n",
+    'R2': "def f(items):\n    items.sort(key=lambda e: id(e))\n    return min(items, key=hash)\n",
+    'R3': "import random, os\nimport numpy as np\ndef f():\n    r = random.Random()\n    return r.random() + np.random.rand() + os.urandom(1)[0]\n",
+    'R4': "import time\nimport simpy.rt\ndef f(env):\n    return time.time() - env.now\n",
+    'R5': "import heapq\ndef f(env):\n    env._now = 0\n    heapq.heappush(env._queue, (0, 0, 0, None))\n",
+}
+
+
+def run(p: Project, tier: str) -> Result:
+    r = Result(PROP)
+    r.explanation = ('Whole-package scan for the constructs that make two runs differ: identity/hash-ordered iteration, unseedable entropy, wall '
+                     'clock, writes to the kernel clock/queue. Run-to-run equality itself and monotone time are the kernel\'s guarantees given these.')
+    r.rule('C19.R1', 'no iteration over set-typed values', 1)
+    r.rule('C19.R2', 'id()/hash() never reach an ordering sink', 1)
+    r.rule('C19.R3', 'entropy only from module-level random.*', 1)
+    r.rule('C19.R4', 'no wall clock, no real-time environment', 1)
+    r.rule('C19.R5', 'kernel clock and queue are never written', 1)
+    r.not_decided = ['equality of two runs (needs execution)', 'monotone time is SimPy\'s guarantee given R5 and non-negative delays (C20.R4)']
+    r.assumptions = ['dict iteration order is insertion order (language guarantee); simpy schedules events deterministically (time, priority, id)']
+    trees = {rel: m.tree for rel, m in p.modules.items()}
+    for rule, fn in (('R1', scan_sets), ('R2', scan_identity_order), ('R3', scan_entropy), ('R4', scan_clock), ('R5', scan_kernel)):
+        n_sites = 0
+        for rel, tree in sorted(trees.items()):
+            r.analysed_functions.add(rel)
+            hits, sites = fn(tree)
+            n_sites += sites
+            for line, what in hits:
+                r.fail(f'C19.{rule}', f'{rel}::{what}', what_msg(rule, what), src(rel), line)
+        r.ok(f'C19.{rule}', f'package::{rule}-scan', f'{len(trees)} modules, {n_sites} candidate site(s) examined', '', 0)
+        r.stats[f'{rule}_sites'] = n_sites
+        # canary
+        chits, _ = fn(ast.parse(CANARY[rule]))
+        r.canaries[f'C19.{rule}'] = bool(chits)
+    return r
+
+
+def what_msg(rule, what):
+    return {
+        'R1': f'{what}: set iteration order depends on hashes / memory addresses, which differ between interpreter runs',
+        'R2': f'{what}: an ordering decided by id()/hash() differs between interpreter runs',
+        'R3': f'{what}: entropy that random.seed() does not control',
+        'R4': f'{what}: wall-clock time leaks into the simulation',
+        'R5': f'{what}: the kernel clock / event queue is manipulated directly',
+    }[rule]
+
+
+# ------------------------------------------------------------------------------------------- R1
+def is_set_expr(n, setnames):
+    if isinstance(n, (ast.Set, ast.SetComp)):
+        return True
+    if isinstance(n, ast.Call) and isinstance(n.func, ast.Name) and n.func.id in ('set', 'frozenset'):
+        return True
+    if isinstance(n, ast.Name) and n.id in setnames:
+        return True
+    if isinstance(n, ast.Attribute) and ast.unparse(n) in setnames:
+        return True
+    if isinstance(n, ast.BinOp) and isinstance(n.op, (ast.BitOr, ast.BitAnd, ast.Sub, ast.BitXor)) and (is_set_expr(n.left, setnames) or is_set_expr(n.right, setnames)):
+        return True
+    if isinstance(n, ast.Call) and isinstance(n.func, ast.Attribute) and n.func.attr in ('union', 'intersection', 'difference', 'symmetric_difference') \
+            and is_set_expr(n.func.value, setnames):
+        return True
+    return False
+
+
+def scan_sets(tree):
+    hits = []
+    sites = 0
+    setnames = set()
+    for _ in range(2):
+        for n in ast.walk(tree):
+            if isinstance(n, ast.Assign) and is_set_expr(n.value, setnames):
+                for t in n.targets:
+                    setnames.add(ast.unparse(t))
+            if isinstance(n, ast.AnnAssign) and n.value is not None and is_set_expr(n.value, setnames):
+                setnames.add(ast.unparse(n.target))
+    for n in ast.walk(tree):
+        its = []
+        if isinstance(n, (ast.For, ast.AsyncFor)):
+            its.append(n.iter)
+        if isinstance(n, (ast.ListComp, ast.GeneratorExp, ast.SetComp, ast.DictComp)):
+            its += [g.iter for g in n.generators]
+        if isinstance(n, ast.Call) and isinstance(n.func, ast.Name) and n.func.id in ('list', 'tuple', 'next', 'iter', 'enumerate', 'zip') and n.args:
+            its += list(n.args)
+        for it in its:
+            sites += 1
+            inner = it
+            if isinstance(inner, ast.Call) and isinstance(inner.func, ast.Name) and inner.func.id in ('iter', 'enumerate', 'reversed', 'list') and inner.args:
+                inner = inner.args[0]
+            if is_set_expr(inner, setnames):
+                hits.append((it.lineno, f'iteration over the set `{ast.unparse(inner)[:40]}`'))
+        if isinstance(n, ast.Call) and isinstance(n.func, ast.Attribute) and n.func.attr == 'pop' and not n.args and is_set_expr(n.func.value, setnames):
+            hits.append((n.lineno, f'arbitrary element popped from the set `{ast.unparse(n.func.value)[:40]}`'))
+    return hits, sites
+
+
+# ------------------------------------------------------------------------------------------- R2
+def identity_calls(n):
+    for x in ast.walk(n):
+        if isinstance(x, ast.Call) and isinstance(x.func, ast.Name) and x.func.id in ('id', 'hash'):
+            yield x
+        if isinstance(x, ast.Name) and x.id in ('id', 'hash') and isinstance(x.ctx, ast.Load):
+            yield x
+
+
+def scan_identity_order(tree):
+    hits = []
+    sites = 0
+    parents = {}
+    for n in ast.walk(tree):
+        for c in ast.iter_child_nodes(n):
+            parents[c] = n
+    tainted = set()
+    for n in ast.walk(tree):
+        if isinstance(n, ast.Assign) and any(True for _ in identity_calls(n.value)):
+            # str(id(x)) used as a dictionary key is fine; remember the name to check its uses
+            for t in n.targets:
+                if isinstance(t, ast.Name):
+                    tainted.add(t.id)
+    for n in ast.walk(tree):
+        # sort / sorted / min / max with a key that uses id/hash, or applied to tainted values
+        if isinstance(n, ast.Call):
+            fname = n.func.id if isinstance(n.func, ast.Name) else (n.func.attr if isinstance(n.func, ast.Attribute) else None)
+            if fname in ORDER_FUNCS or fname == 'sort':
+                sites += 1
+                for k in n.keywords:
+                    if k.arg == 'key':
+                        if any(True for _ in identity_calls(k.value)):
+                            hits.append((n.lineno, f'`{fname}` ordered by id()/hash()'))
+                        if any(isinstance(x, ast.Name) and x.id in tainted for x in ast.walk(k.value)):
+                            hits.append((n.lineno, f'`{fname}` ordered by a value derived from id()/hash()'))
+                if fname in ORDER_FUNCS and not n.keywords:
+                    for a in n.args:
+                        if any(True for _ in identity_calls(a)):
+                            hits.append((n.lineno, f'`{fname}` over id()/hash() values'))
+        if isinstance(n, ast.Compare) and any(isinstance(o, (ast.Lt, ast.Gt, ast.LtE, ast.GtE)) for o in n.ops):
+            sites += 1
+            operands = [n.left] + list(n.comparators)
+            for o in operands:
+                if any(True for _ in identity_calls(o)) or (isinstance(o, ast.Name) and o.id in tainted):
+                    hits.append((n.lineno, 'ordering comparison on an id()/hash() value'))
+    return hits, sites
+
+
+# ------------------------------------------------------------------------------------------- R3
+def scan_entropy(tree):
+    hits = []
+    sites = 0
+    np_aliases = set()
+    for n in ast.walk(tree):
+        if isinstance(n, ast.Import):
+            for a in n.names:
+                if a.name == 'numpy':
+                    np_aliases.add(a.asname or 'numpy')
+                if a.name in ('secrets', 'uuid'):
+                    hits.append((n.lineno, f'import {a.name}'))
+        if isinstance(n, ast.ImportFrom) and n.module in ('secrets', 'uuid', 'numpy.random'):
+            hits.append((n.lineno, f'from {n.module} import ...'))
+        if isinstance(n, ast.ImportFrom) and n.module == 'random':
+            for a in n.names:
+                if a.name in ENTROPY_BAD:
+                    hits.append((n.lineno, f'from random import {a.name}'))
+    for n in ast.walk(tree):
+        if isinstance(n, ast.Attribute):
+            txt = ast.unparse(n)
+            if txt.startswith('random.'):
+                sites += 1
+                if n.attr in ENTROPY_BAD:
+                    hits.append((n.lineno, f'`{txt}` (a private / system generator)'))
+            for al in np_aliases:
+                if txt.startswith(f'{al}.random'):
+                    sites += 1
+                    hits.append((n.lineno, f'`{txt}` (numpy generator, not seeded by random.seed)'))
+            if txt in ('os.urandom', 'os.getrandom'):
+                hits.append((n.lineno, f'`{txt}`'))
+    # de-duplicate by line
+    seen = set()
+    out = []
+    for h in hits:
+        if h not in seen:
+            seen.add(h)
+            out.append(h)
+    return out, sites
+
+
+# ------------------------------------------------------------------------------------------- R4
+def scan_clock(tree):
+    hits = []
+    sites = 0
+    for n in ast.walk(tree):
+        if isinstance(n, ast.Import):
+            for a in n.names:
+                if a.name.startswith('simpy.rt'):
+                    hits.append((n.lineno, 'import simpy.rt'))
+        if isinstance(n, ast.ImportFrom) and (n.module or '').startswith('simpy.rt'):
+            hits.append((n.lineno, 'from simpy.rt import ...'))
+        if isinstance(n, ast.ImportFrom) and n.module == 'time':
+            for a in n.names:
+                if ('time', a.name) in WALL:
+                    hits.append((n.lineno, f'from time import {a.name}'))
+        if isinstance(n, ast.Attribute):
+            sites += 1
+            base = n.value
+            bname = base.id if isinstance(base, ast.Name) else (base.attr if isinstance(base, ast.Attribute) else None)
+            if (bname, n.attr) in WALL:
+                hits.append((n.lineno, f'`{ast.unparse(n)}`'))
+            if n.attr == 'RealtimeEnvironment':
+                hits.append((n.lineno, '`RealtimeEnvironment`'))
+    return hits, sites
+
+
+# ------------------------------------------------------------------------------------------- R5
+def scan_kernel(tree):
+    hits = []
+    sites = 0
+    for n in ast.walk(tree):
+        if isinstance(n, (ast.Assign, ast.AugAssign, ast.Delete)):
+            for t in (n.targets if isinstance(n, (ast.Assign, ast.Delete)) else [n.target]):
+                sites += 1
+                base = t.value if isinstance(t, ast.Subscript) else t
+                if isinstance(base, ast.Attribute) and base.attr in KERNEL_ATTRS:
+                    hits.append((n.lineno, f'write to `{ast.unparse(base)}`'))
+        if isinstance(n, ast.Attribute) and ast.unparse(n).startswith('heapq.'):
+            hits.append((n.lineno, f'`{ast.unparse(n)}`'))
+        if isinstance(n, ast.Call) and isinstance(n.func, ast.Attribute) and isinstance(n.func.value, ast.Attribute) and n.func.value.attr in ('_queue',) \
+                and n.func.attr in ('append', 'pop', 'remove', 'insert', 'clear', 'sort'):
+            hits.append((n.lineno, f'`{ast.unparse(n.func)}` on the kernel queue'))
+    seen = set()
+    out = []
+    for h in hits:
+        if h not in seen:
+            seen.add(h)
+            out.append(h)
+    return out, sites
